@@ -63,7 +63,9 @@ def gen_segment(rng, quick, kind, axis, mixing_one=False):
             # a tolerance of the order of the column norms: the warning branch of X_orthogonalizer
             # (capped at 1: an un-normalised pivot of norm > 1 amplifies rounding by norm^2 per step and the
             # comparison with the model would no longer be meaningful)
-            tol = min(1.0, float(np.median(np.linalg.norm(X, axis=0 if axis == 1 else 1))) * rng.choice([0.3, 0.8, 1.5]))
+            med = float(np.median(np.linalg.norm(X, axis=0 if axis == 1 else 1)))
+            if med > 0:              # (zero items: the median can vanish; tolerance = 0 is not generated)
+                tol = min(1.0, med * rng.choice([0.3, 0.8, 1.5]))
         y = None
         mixing = None
         if kind == "pcovcur":
@@ -302,7 +304,7 @@ def replica(case, seg, sel):
         return A.copy() if axis == 1 else A.T.copy()
     y = Y
     m0 = 0
-    diag = dict(raw=0, fires=0, skipped=0, border=0, trunc=0)
+    diag = dict(raw=0, fires=0, skipped=0, border=0, trunc=0, noise_fired=0)
     projected = []          # items projected out of X_current_ so far
     stages = []
     for st in seg["stages"]:
@@ -315,6 +317,11 @@ def replica(case, seg, sel):
                 if _near(a, tol * b):
                     diag["border"] += 1
                 if a > tol * b:
+                    if a <= 1e-10 * b:
+                        # tolerance below the rounding unit: the guard fires on an item that WAS projected
+                        # out (its residual is rounding noise) and the code normalises that noise - the
+                        # result is decided by rounding (tolerance = 1e-6 * 2^-34, say)
+                        diag["noise_fired"] += 1
                     if a < tol:
                         diag["raw"] += 1
                     if _near(a, tol):
@@ -401,7 +408,8 @@ def eig_hints(case, st, Xt, yt, rcond=1e-12):
 def premises(diag):
     """the property is claimed when every pivot was normalised (norm >= tolerance), no stale item
     was skipped by the warm-start guard and no pinv / lstsq cut a non-zero singular value."""
-    return diag["raw"] == 0 and diag["skipped"] == 0 and diag["trunc"] == 0 and diag["border"] == 0
+    return (diag["raw"] == 0 and diag["skipped"] == 0 and diag["trunc"] == 0 and diag["border"] == 0
+            and diag["noise_fired"] == 0)
 
 
 def abs_rcond_ambiguous(X, chosen, rcond=1e-12):
@@ -545,7 +553,10 @@ def compare_twin(case, res, twin, res2, what, gap_gate=1e-6, pitol=1e-6, xtol=1e
         tdiff = next((i for i, (u, v) in enumerate(zip(sel, sel2)) if u != v), None)
         if tdiff is None and len(sel) != len(sel2):
             return "%s: %d vs %d selections" % (what, len(sel), len(sel2)), info
-        stages, _ = replica(case, seg, sel)
+        stages, tdiag = replica(case, seg, sel)
+        if tdiag["noise_fired"] or tdiag["border"]:
+            info["gap_skipped"] += 1        # a branch decided by rounding: the two runs need not agree
+            continue
         sx = np.abs(np.array(seg["X"], dtype=float)).max()
         ok = True
         t = 0
@@ -617,6 +628,11 @@ def compare_presentation(case, res, case2, res2):
         # (computed from the exactly representable X) when the eigenvalue gap is large
         info = dict(compared_refreshes=0, gap_skipped=0, tie_skipped=0, segments=0)
         if "error" in res2:
+            if "Arpack" in res2["error"]:
+                # single-precision ARPACK (svds) occasionally fails to converge / finds no shifts (about 1 in
+                # 10^4 histories): outside the property (which is about the values), counted not reported
+                info["gap_skipped"] += 1
+                return None, info
             return (None if "error" in res else what + ": fit raised " + res2["error"]), info
         if "error" in res:
             return None, info
